@@ -714,7 +714,7 @@ class RRTStar:
             collisionDetector (Func): collision detection function
         """
         for i in range(self.iterations):
-            progressBar(i, self.iterations-1)
+            progressBar(i + 1, self.iterations)
             new_node = randomGenerator()
             nearest = self.r6_tree_graph.nearestNeighbors(new_node, 1)
             dist = distanceFunction(new_node.getPosition(), nearest[0].object.getPosition())
